@@ -294,7 +294,7 @@ class AQTDevice(cirq.Device):
             raise ValueError(f'Unsupported gate type: {gate!r}')
 
     def validate_operation(self, operation) -> None:
-        if not isinstance(operation, cirq.GateOperation):
+        if not isinstance(getattr(operation, 'untagged', operation), cirq.GateOperation):
             raise ValueError(f'Unsupported operation: {operation!r}')
 
         self.validate_gate(operation.gate)
